@@ -205,7 +205,8 @@ def r4_formula(chk, f):
     asg = assignments(f.node)
     atomvar = norm(loop.target)
     hs_all = [s for s in walk_no_nested(loop) if isinstance(s, ast.Assign) and norm(s.targets[0]) == "hs_to_add"]
-    hs = [s for s in hs_all if isinstance(s.value, ast.Call)] if len(hs_all) > 1 else hs_all
+    # the formula assignment (not the popped hint, not a copy of it)
+    hs = [s for s in hs_all if isinstance(s.value, ast.Call) and not ("__implicit_hydrogens" in norm(s.value) and ".pop(" in norm(s.value))] if len(hs_all) > 1 else hs_all
     chk.require(len(hs) == 1, f"{f.key}: hint-free assignment of hs_to_add not found")
     fm = hs[0].value
     from ..canon import Env, additive_terms
